@@ -66,12 +66,17 @@ def binop(op, t, x, y, ty=None):
             e = '(%s %s %s)' % ({'&': 'bvand', '|': 'bvor', '^': 'bvxor'}[op], bx, by)
         return None, from_bv(t, e), 'int'
     if op == '<<':
-        # count y is unsigned (type ty); shifting by >= width gives 0
-        return None, '(ite (>= %s %d) 0 %s)' % (y, w, wrap(t, '(* %s (go_p2 %s))' % (x, y))), 'int'
+        # count y is unsigned (type ty); shifting by >= width gives 0.  Stated per count so that every branch is linear.
+        t_ = '0'
+        for k in range(w - 1, -1, -1):
+            t_ = '(ite (= %s %d) %s %s)' % (y, k, wrap(t, '(* %s %d)' % (x, 1 << k)), t_)
+        return None, t_, 'int'
     if op == '>>':
         # arithmetic for signed, logical for unsigned: floor division by 2^y
-        over = '(ite (< %s 0) (- 1) 0)' % x if s == 'i' else '0'
-        return None, '(ite (>= %s %d) %s (div %s (go_p2 %s)))' % (y, w, over, x, y), 'int'
+        t_ = '(ite (< %s 0) (- 1) 0)' % x if s == 'i' else '0'
+        for k in range(w - 1, -1, -1):
+            t_ = '(ite (= %s %d) (div %s %d) %s)' % (y, k, x, 1 << k, t_)
+        return None, t_, 'int'
     if op in ('==', '!=', '<', '<=', '>', '>='):
         m = {'==': '(= %s %s)', '!=': '(not (= %s %s))', '<': '(< %s %s)', '<=': '(<= %s %s)', '>': '(> %s %s)', '>=': '(>= %s %s)'}[op]
         return None, m % (x, y), 'bool'
